@@ -79,7 +79,7 @@ LitValue(v) ==
       [] v = "0" -> VI(0) [] v = "1" -> VI(1) [] v = "2" -> VI(2) [] v = "3" -> VI(3)
       [] v = "''" -> VS("") [] v = "'x'" -> VS("x") [] v = "'y'" -> VS("y") [] v = "'1'" -> VS("1")
       [] v = "'a'" -> VS("a") [] v = "'b'" -> VS("b") [] v = "'t1'" -> VS("t1") [] v = "'t2'" -> VS("t2")
-      [] v = "'k'" -> VS("k") [] v = "'p'" -> VS("p") [] v = "'q'" -> VS("q")
+      [] v = "'t'" -> VS("t") [] v = "'k'" -> VS("k") [] v = "'p'" -> VS("p") [] v = "'q'" -> VS("q")
       [] OTHER -> VApp("lit", <<VS(v)>>)
 
 (* operators the specification decides itself (control flow); everything else is deferred *)
@@ -243,12 +243,15 @@ SlotScopes(at, i, sv, acc) ==
                              v |-> GetS(sv, Camel(at[i].n)), lp |-> <<>>]))
          ELSE SlotScopes(at, i + 1, sv, acc)
 
+(* a rendered value as a value: mixed text is the (deferred) concatenation of its pieces *)
+ValueOf(rv) == IF rv.t = "raw" THEN rv.v
+               ELSE VApp("strcat", [i \in 1..Len(rv.ps) |-> IF rv.ps[i].t = "s" THEN VS(rv.ps[i].s) ELSE rv.ps[i].v])
 IsDyn(tag) == Len(tag) > 4 /\ SubSeq(tag, 1, 4) = "dyn-"
 RECURSIVE SlotValuesOf(_, _, _)
 SlotValuesOf(at, i, acc) ==
     IF i > Len(at) THEN VO(acc)
-    ELSE IF at[i].ch = "r" /\ Len(at[i].n) > 3 /\ SubSeq(at[i].n, 1, 3) = "sv-" /\ at[i].v.t = "raw"
-         THEN SlotValuesOf(at, i + 1, Append(acc, <<Camel(SubSeq(at[i].n, 4, Len(at[i].n))), at[i].v.v>>))
+    ELSE IF at[i].ch = "r" /\ Len(at[i].n) > 3 /\ SubSeq(at[i].n, 1, 3) = "sv-"
+         THEN SlotValuesOf(at, i + 1, Append(acc, <<Camel(SubSeq(at[i].n, 4, Len(at[i].n))), ValueOf(at[i].v)>>))
          ELSE SlotValuesOf(at, i + 1, acc)
 
 IsWs(s) == \A i \in 1..Len(s) : SubSeq(s, i, i) \in {" ", "\n", "\t"}
@@ -301,7 +304,7 @@ WxsScopes(file) == [i \in 1..Len(file.wxs) |-> [n |-> file.wxs[i].n, v |-> VO(fi
    mode passes through virtual nodes (if / for / block) and ends at elements. *)
 SlotMatches(v) == \* `v`: a rendered value; the unnamed slot is addressed by a falsy / empty name
     CASE v.t = "absent" -> TRUE
-      [] v.t = "raw"    -> ~Truthy(v.v)
+      [] v.t = "raw"    -> v.v.k \in {"undef", "null"} \/ (v.v.k = "str" /\ v.v.s = "")   \* the name is Y(value)
       [] OTHER          -> FALSE
 BlockSlotMatches(v) == CASE v.t = "raw" -> v.v.k \in {"undef", "null"} \/ (v.v.k = "str" /\ v.v.s = "")
                          [] OTHER -> FALSE
